@@ -1,7 +1,7 @@
-(* C11 — GNU hash lookup is sound on any table; the exported hash function is the GNU hash.
-   (Completeness on well-formed tables: see C11_complete in Proofs/GnuP.v when present; the
-   correspondence check compares every lookup on built tables with a linear scan.) *)
-Require Import V.Base.Prim V.Model.Structs V.Model.Table V.Model.StrTab V.Model.Hash V.Proofs.HashP.
+(* C11 — GNU hash lookup is sound on any table and complete on well-formed ones; the exported hash
+   function is the GNU hash. *)
+Require Import V.Base.Prim V.Model.Structs V.Model.Table V.Model.StrTab V.Model.Hash V.Spec.HashWf V.Proofs.HashP V.Proofs.GnuP.
+From Coq Require Import Lia.
 Open Scope N_scope.
 
 (* djb2: h*33 + c, seed 5381, modulo 2^32 *)
@@ -13,6 +13,64 @@ Theorem C11_sound : forall s d t name symtab strtab i y,
   table_get (parse_sym s (g_class t)) (sym_size (g_class t)) symtab i = Ok y /\
   exists r, get_raw strtab (st_name y) = Ok r /\ range_bytes strtab r = name.
 Proof. exact gnu_find_sound. Qed.
+
+(* completeness on a well-formed .gnu.hash (Spec/HashWf.v, gnu_wf: every hashed symbol has a
+   readable name, its chain entry carries its hash, both of its bloom bits are set in its bloom
+   word, its bucket's chain starts at or before it with no stop bit in between; either class and
+   byte order): every hashed symbol is found by name ... *)
+Theorem C11_complete_present : forall s c hdr bloom buckets chains symtab strtab name,
+  buf_ok chains -> gnu_wf s c hdr bloom buckets chains symtab strtab ->
+  (exists j, j < table_len 4 chains /\ gname s c hdr symtab strtab j = Some name) ->
+  exists i y, gnu_find_in s c hdr bloom buckets chains symtab strtab name = Ok (Some (i, y)).
+Proof. exact gnu_complete_present. Qed.
+(* ... and every absent name gives None, also when its hash, bloom bits or bucket collide with
+   present ones *)
+Theorem C11_complete_absent : forall s c hdr bloom buckets chains symtab strtab name,
+  buf_ok chains -> buf_ok buckets -> gnu_wf s c hdr bloom buckets chains symtab strtab ->
+  (forall j, j < table_len 4 chains -> gname s c hdr symtab strtab j <> Some name) ->
+  gnu_find_in s c hdr bloom buckets chains symtab strtab name = Ok None.
+Proof. exact gnu_complete_absent. Qed.
+Theorem C11_find_is_find_in : forall s d t name symtab strtab,
+  gnu_find s d t name symtab strtab =
+  gnu_find_in s (g_class t) (g_hdr t) (view d (g_bloom t)) (view d (g_buckets t)) (view d (g_chains t)) symtab strtab name.
+Proof. reflexivity. Qed.
+
+(* non-vacuity: a .gnu.hash built for the one symbol "a" (ELF64, little endian, 1 bucket, 1 bloom
+   word, shift 5, symoffset 1) is well-formed, finds "a" and answers None for "b" *)
+Definition ex_tab : buf := of_list
+  [x01; x00; x00; x00; x01; x00; x00; x00; x01; x00; x00; x00; x05; x00; x00; x00; x40; x00; x00; x00; x00; x00; x01; x00;
+   x01; x00; x00; x00; x07; xb6; x02; x00].
+Definition ex_symtab : buf := of_list
+  [x00; x00; x00; x00; x00; x00; x00; x00; x00; x00; x00; x00; x00; x00; x00; x00; x00; x00; x00; x00; x00; x00; x00; x00;
+   x01; x00; x00; x00; x11; x00; x01; x00; x00; x10; x00; x00; x00; x00; x00; x00; x00; x00; x00; x00; x00; x00; x00; x00].
+Definition ex_strtab : buf := of_list [x00; x61; x00].
+Definition ex_hdr : gnuhdr := {| gh_nbucket := 1; gh_symoffset := 1; gh_nbloom := 1; gh_nshift := 5 |}.
+Example C11_wf_example :
+  let bloom := view ex_tab (16, 24) in let buckets := view ex_tab (24, 28) in let chains := view ex_tab (28, 32) in
+  gnu_new Little ELF64 ex_tab = Ok {| g_hdr := ex_hdr; g_class := ELF64; g_bloom := (16, 24); g_buckets := (24, 28); g_chains := (28, 32) |} /\
+  gnu_wf Little ELF64 ex_hdr bloom buckets chains ex_symtab ex_strtab /\
+  gnu_find_in Little ELF64 ex_hdr bloom buckets chains ex_symtab ex_strtab [97] =
+    Ok (Some (1, {| st_name := 1; st_shndx := 1; st_info := 17; st_other := 0; st_value := 4096; st_size := 0 |})) /\
+  gnu_find_in Little ELF64 ex_hdr bloom buckets chains ex_symtab ex_strtab [98] = Ok None.
+Proof.
+  cbv zeta. split; [vm_compute; reflexivity|]. split; [|split; vm_compute; reflexivity].
+  assert (L : table_len 4 (view ex_tab (28, 32)) = 1) by (vm_compute; reflexivity).
+  constructor.
+  - vm_compute. reflexivity.
+  - vm_compute. reflexivity.
+  - intros i Hi. assert (i = 0) by (cbn in Hi; lia). subst i. eexists. vm_compute. reflexivity.
+  - vm_compute. reflexivity.
+  - vm_compute. discriminate.
+  - rewrite L. vm_compute. discriminate.
+  - intros j Hj. rewrite L in Hj. assert (j = 0) by lia. subst j. eexists. vm_compute. reflexivity.
+  - intros j nm ch Hj. rewrite L in Hj. assert (j = 0) by lia. subst j. intros Hn Hc. vm_compute in Hn, Hc.
+    injection Hn as <-. injection Hc as <-. vm_compute. reflexivity.
+  - intros j nm Hj. rewrite L in Hj. assert (j = 0) by lia. subst j. intros Hn. vm_compute in Hn. injection Hn as <-.
+    eexists. split; [vm_compute; reflexivity|]. split; vm_compute; discriminate.
+  - intros j nm Hj. rewrite L in Hj. assert (j = 0) by lia. subst j. intros Hn. vm_compute in Hn. injection Hn as <-.
+    eexists. split; [vm_compute; reflexivity|]. split; [vm_compute; discriminate|]. split; [vm_compute; discriminate|].
+    intros k ch Hk1 Hk2. exfalso. revert Hk2. destruct k; discriminate.
+Qed.
 
 Example C11_example : gnu_hash [] = 5381 /\ gnu_hash [112; 114; 105; 110; 116; 102] = 359345080 /\ True.
 Proof. split; [reflexivity|]. split; [|exact I]. vm_compute. reflexivity. Qed.
